@@ -120,7 +120,7 @@ pub trait Property: Sync {
         false
     }
     fn case_timeout(&self) -> Duration {
-        Duration::from_secs(20)
+        Duration::from_secs(60)
     }
     /// labels whose share among evaluated cases must reach the floor (else inconclusive)
     fn label_floors(&self) -> Vec<(&'static str, f64)> {
@@ -883,6 +883,7 @@ pub fn parent_main(prop: &dyn Property, tier: Tier) -> i32 {
     let mut nontrivial: Vec<u64> = vec![];
     let mut unstable_failures: Vec<String> = vec![];
     let mut workers_ended_early = 0u64;
+    let mut unreproduced_hangs = 0u64;
     let mut samples: Vec<J> = vec![];
     let mut shrunk_kinds: BTreeSet<String> = BTreeSet::new();
     for w in ws.iter() {
@@ -906,10 +907,19 @@ pub fn parent_main(prop: &dyn Property, tier: Tier) -> i32 {
                 _ => None,
             };
             match confirmed {
-                None => inconclusive.push(format!(
-                    "worker ended abnormally ({:?}) but its last case did not reproduce in isolation",
-                    ab
-                )),
+                None => {
+                    // a watchdog kill whose case then runs fine twice in isolation says something
+                    // about the machine, not about the property: the worker's checkpoint is still
+                    // merged and the loss is reported; only a crash that does not reproduce, or
+                    // losing most of the workers, makes the run inconclusive
+                    let msg = format!("worker ended abnormally ({:?}) but its last case did not reproduce in isolation", ab);
+                    if matches!(ab, OneResult::Hang) && matches!((&r1, &r2), (OneResult::Pass, OneResult::Pass)) {
+                        unreproduced_hangs += 1;
+                        println!("NOTE property={} {}", id, msg);
+                    } else {
+                        inconclusive.push(msg);
+                    }
+                }
                 Some(OneResult::Fail(f)) => {
                     if known.iter().any(|k| k.sig == f.sig) {
                         *known_hits.entry(f.sig.clone()).or_default() += 1;
@@ -1011,6 +1021,9 @@ pub fn parent_main(prop: &dyn Property, tier: Tier) -> i32 {
 
     nontrivial.sort_unstable();
     nontrivial.dedup();
+    if unreproduced_hangs * 2 > nworkers {
+        inconclusive.push(format!("{} of {} workers were stopped by the watchdog on cases that run fine in isolation", unreproduced_hangs, nworkers));
+    }
 
     // label floors
     for (l, floor) in prop.label_floors() {
@@ -1068,6 +1081,7 @@ pub fn parent_main(prop: &dyn Property, tier: Tier) -> i32 {
             "inconclusive": inconclusive,
             "unstable_failures_not_reproduced_after_shrinking": unstable_failures,
             "workers_ended_early": workers_ended_early,
+            "watchdog_stops_not_reproduced_in_isolation": unreproduced_hangs,
         },
         "assumptions": prop.assumptions(),
         "wall_s": wall,
